@@ -239,7 +239,7 @@ def r04_5(ctx):
         T = ctx.tables(which)
         eat = T["helpers"].get("eat") or []
         need = [pc for pc in eat if pc["ret"] == "None"]
-        ok = bool(need) and all(any(a.startswith("loop-begin while input.next()") for a, _ in pc["actions"]) for pc in need)
+        ok = bool(need) and all(any(a.startswith("loop-begin") for a, _ in pc["actions"]) and any(g.startswith("input.next() matches Some") for g in pc["guards"]) for pc in need)
         ctx.ob("R04.5", "eat-drains-the-queue-when-it-needs-more/%s" % which, ok,
                "when eat() answers 'need more input' it has moved the *whole* queue into temp_buf (a loop over input.next())" if ok else
                "eat() can answer 'need more input' leaving characters in the caller's queue: feed() returns Done with unconsumed input and finish() asserts", "%s tokenizer eat" % which)
